@@ -99,6 +99,9 @@ package mapping
 // a document value that is not a list (a nested list / map slot can receive anything) is a mismatch, and the
 // reflect operations that are only defined on lists (IsNil, Len, Cap, Index) run only after that check
 //@   ensures [non-list-is-a-mismatch] calls(Kind) >= 3 && ret(Kind, 0, 3) != 23 ==> result == errTypeMismatch && calls(IsNil) == 0 && calls(reflect.MakeSlice) == 0 && calls(Set) == 0
+// (with the reflect.Value kind model: what a decoder produces for a list really gets past the check, an object does not)
+//@   ensures [a-document-list-is-taken-as-a-list] ret(CanSet) && typeis(mapValue, []any) ==> calls(IsNil) == 1
+//@   ensures [a-document-object-is-not-a-list] ret(CanSet) && typeis(mapValue, map[string]any) ==> result == errTypeMismatch && calls(IsNil) == 0
 //@   ensures [list-operations-only-on-a-list] calls(IsNil) >= 1 ==> calls(Kind) >= 3 && ret(Kind, 0, 3) == 23 && arg(Kind, 0, 3) == ret(reflect.ValueOf) && arg(IsNil, 0) == ret(reflect.ValueOf)
 
 // ---------------- field dispatch: what may be stored, and only after which checks (C05) ----------------
